@@ -69,8 +69,7 @@ func parseJSONValue(dec *json.Decoder) (*JNode, error) {
 				if err != nil {
 					return nil, err
 				}
-				n.keys = append(n.keys, ConcStr(k))
-				n.vals = append(n.vals, c)
+				n.addKey(ConcStr(k), c, nil)
 			}
 			if _, err := dec.Token(); err != nil {
 				return nil, err
